@@ -967,6 +967,14 @@ func (e *Enc) binop(op token.Token, x, y *Val, T types.Type, pos token.Pos, ins 
 				eqs = append(eqs, "(= "+s.L[0]+" 0)")
 			} else if _, isIface := xt.Underlying().(*types.Interface); isIface && len(y.L) == 1 {
 				eqs = append(eqs, sEq(x.L[0], y.L[0]))
+			} else if _, isPtr := xt.Underlying().(*types.Pointer); isPtr && len(x.L) == 2 && len(y.L) == 2 && len(x.Path) == len(y.Path) {
+				// nil is ref 0 whatever the index
+				eqs = append(eqs, "(= "+x.L[0]+" "+y.L[0]+")", "(or (= "+x.L[0]+" 0) (= "+x.L[1]+" "+y.L[1]+"))")
+				for i := range x.Path {
+					if x.Path[i].Field != y.Path[i].Field {
+						eqs = append(eqs, "(= "+x.L[0]+" 0)")
+					}
+				}
 			} else {
 				if len(x.L) != len(y.L) {
 					e.note("comparison of differently shaped values: fresh bool")
